@@ -107,7 +107,7 @@ fn occur_check(id1: IntermediateId, t2: TypeNodeId) -> bool {
             .unwrap_or(true),
         Type::Array(a) => cls(*a),
         Type::Tuple(t) => vec_cls(t),
-        Type::Function { arg, ret } => cls(*arg) && cls(*ret),
+        Type::Function { arg, ret } => cls(*arg) || cls(*ret),
         Type::Record(s) => vec_cls(
             s.iter()
                 .map(|RecordTypeField { ty, .. }| *ty)
